@@ -222,6 +222,9 @@ func runC13(r *mon.Run) {
 			key = b32(nonResidueX(rng.Below(bigP)))
 		case 4:
 			sp := specialPoints()[rng.Intn(len(specialPoints()))].P
+			if rng.Bool() {
+				sp = gapPointX(rng) // an abscissa anywhere in [0, 2^256-p), classes after the limbs of p
+			}
 			key = b32(sp.X)
 			if rng.Bool() && sp.X.Cmp(new(big.Int).Sub(oracle.Two256, bigP)) < 0 {
 				key = b32(new(big.Int).Add(sp.X, bigP)) // x + p alias
